@@ -3,7 +3,7 @@ CONSTANTS
   ShiftStyle = "pad" LevelStyle = "match" TruncStyle = "exact" AnalyticStyle = "outer" BCubic = "plus"
   Sizes = {202, 302, 402, 403, 404, 602}
   Cells = {11, 23}
-  Halos = {0}
+  Halos = {99, 0, 1, 3, 4}
   ModeSet = {202, 402, 204, 404, 1212}
   NZs = {3}
   LevelLists = "asc"
@@ -19,4 +19,6 @@ INVARIANT TranslateSource
 INVARIANT TranslateTower
 INVARIANT PointReflect
 INVARIANT Recentre
+INVARIANT TranslateTowerIn
+INVARIANT PointReflectIn
 INVARIANT Emit
